@@ -120,6 +120,18 @@ def h_arbitrary(ctx, name, n):
     ctx.holds("the caller's input buffer is left as it was", len(after) == len(before) and sym_and(*[a == b for a, b in zip(after, before)]))
 
 
+def h_srv1_inner(ctx, sub, k, ws, we):
+    """a well-formed PUS TM (valid lengths and CRC) of service 1 whose source data has any content of k octets - in
+    particular too few for the request id / step id / failure code the subservice calls for"""
+    raw = PusTm(1, sub, ctx.octets("ts", 0), ctx.octets("src", k), ctx.int("apid", 0, 2047), ctx.int("sc", 0, 16383)).pack()
+    e, u = call(Service1Tm.unpack, raw, UnpackParams(0, ws, we))
+    check_outcome(ctx, e, "Service1Tm.unpack of a well-formed TM[1,%d] with %d source data octets" % (sub, k))
+    e, tm = call(PusTm.unpack, raw, 0)
+    if e is None:
+        e2, u2 = call(Service1Tm.from_tm, tm, UnpackParams(0, ws, we))
+        check_outcome(ctx, e2, "Service1Tm.from_tm")
+
+
 def h_twin(ctx):
     data = ctx.octets("data", 6)
     e, u = call(SpacePacketHeader.unpack, data)
@@ -223,6 +235,11 @@ def cases(tier):
             cs.append(Case("arb-%s-n%02d" % (name, n), "arbitrary", h_arbitrary, dict(name=name, n=n), budget=1800,
                            bounds="%s on every octet string of length %d" % (name, n)))
     cs.append(Case("twin", "arbitrary", h_twin, {}, expect_violation=True, bounds="reachability twin"))
+    for sub in range(0, 10):
+        for k in range(0, tier_pick(tier, 8, 12)):
+            for ws, we in ((1, 1), (2, 4)):
+                cs.append(Case("srv1-inner-s%d-k%d-w%d%d" % (sub, k, ws, we), "inner", h_srv1_inner, dict(sub=sub, k=k, ws=ws, we=we),
+                               bounds="well-formed TM of service 1, subservice %d, every source data of %d octets, step/code widths %d/%d" % (sub, k, ws, we)))
     pdus = [("eof", (1, 1, 0, 0), {}), ("eof", (1, 1, 1, 1), dict(fl=1)), ("finished", (1, 1, 0, 0), dict(nresp=1, fl=1)), ("finished", (1, 1, 1, 0), {}),
             ("ack", (1, 1, 0, 0), dict(acked=4)), ("ack", (2, 4, 1, 0), dict(acked=5)), ("metadata", (1, 1, 0, 0), dict(nopts=1, optlen=1)),
             ("metadata", (1, 1, 1, 1), {}), ("nak", (1, 1, 0, 0), dict(nseg=1)), ("nak", (1, 1, 1, 1), dict(nseg=0)), ("prompt", (1, 1, 0, 0), {}),
